@@ -192,6 +192,27 @@ where
 	}
 }
 
+/// Verification hook: the raw libyaml event trace (type, start offset, end
+/// offset) for a UTF-8 stream, up to and including the stream end event or
+/// the first error.
+#[cfg(feature = "verif")]
+pub(super) fn verif_events<R: Read>(reader: R) -> (Vec<(u32, u64, u64)>, Option<io::Error>) {
+	let mut parser = Parser::new(reader);
+	let mut events = vec![];
+	loop {
+		match parser.next_event() {
+			Ok(event) => {
+				let event_type = event.event_type();
+				events.push((event_type as u32, event.start_offset(), event.end_offset()));
+				if event_type == YAML_STREAM_END_EVENT {
+					return (events, None);
+				}
+			}
+			Err(err) => return (events, Some(err)),
+		}
+	}
+}
+
 #[cfg(test)]
 mod tests {
 	use super::*;
